@@ -153,3 +153,32 @@ pub fn rtt_update(latest_ms: u32, has_smoothed: bool, smoothed_ms: u32, var_ms: 
     assert!(e.pto_base() >= e.get() + crate::TIMER_GRANULARITY);
     f
 }
+
+/// C07.a (allowance): if the gate `!anti_amplification_blocked(segment_size * k + 1)` that
+/// poll_transmit evaluates before starting datagram k+1 of a batch passes on an unvalidated path,
+/// then even after k+1 full segments the path has sent less than 3x what it received plus one
+/// segment - the documented "complete one datagram once any budget remains" allowance, and no more.
+/// (The argument expression is the one written at the call site in Connection::poll_transmit; the
+/// call site itself is outside the claim.)
+pub fn amplification_allowance(total_sent: u64, total_recvd: u64, segment_size: u16, k: u8) -> u32 {
+    if total_sent >= V62 || total_recvd >= V62 || segment_size == 0 || k > 10 {
+        return 0;
+    }
+    let Some(p) = mk_path(false, total_sent, total_recvd, 0, 0, 0) else { return 0 };
+    let arg = segment_size as u64 * (k as u64) + 1;
+    let blocked = p.anti_amplification_blocked(arg);
+    let f;
+    if !blocked {
+        let after = total_sent + segment_size as u64 * (k as u64 + 1);
+        assert!(after < 3 * total_recvd + segment_size as u64);
+        // and something was received at all: nothing is ever sent to an address that sent nothing
+        assert!(total_recvd > 0);
+        f = 1;
+    } else {
+        // blocked means the budget is already exhausted by what this batch contains
+        assert!(total_sent + segment_size as u64 * k as u64 >= 3 * total_recvd);
+        f = 2;
+    }
+    core::mem::forget(p);
+    f
+}
